@@ -40,6 +40,15 @@ func DeepCopy(node Node, document *Document) Node {
 			family = fam
 		}
 
+		// A husband, wife or child node can be copied on its own, or as part
+		// of an event (the age of the husband at the marriage). The family it
+		// belongs to has not been seen in these cases.
+		if family == nil {
+			if noder, ok := node.(FamilyNoder); ok {
+				family = noder.Family()
+			}
+		}
+
 		return shallowCopyNode(node, document, family), true
 	})
 }
